@@ -263,7 +263,7 @@ def same_field(st, a, b):
         # an input or a named function of inputs: remainders, quotients, truncations, byte swaps); otherwise the analysis
         # lost track of it (an opaque call result, a join) and the type is reported as not decided
         vs = set(st.sys.reduce(a.e).t) | set(st.sys.reduce(b.e).t)
-        known = all(re.match(r"^(t\d+_self|rm[0-9a-f]+$|rq[0-9a-f]+_ghostq$|cast\d+_|bswap\d+_|rd\d+@in:self)", v) for v in vs)
+        known = all(re.match(r"^(t\d+_self|rm[0-9a-f]+$|rq[0-9a-f]+_ghostq$|cast\d+_|bswap\d+_|byte\d+_[0-9a-f]+$|rd\d+@in:self)", v) for v in vs)
         return False if known else None
     if isinstance(a, Seq) and isinstance(b, Seq):
         if not st.sys.entails_eq(a.len - b.len):
